@@ -36,6 +36,8 @@ TRACKED_SUFFIXES = (
     "joblib/_store_backends.py", "joblib/memory.py", "joblib/disk.py", "joblib/backports.py",
     "joblib/numpy_pickle.py", "joblib/numpy_pickle_utils.py", "joblib/func_inspect.py",
     "/shutil.py", "/os.py", "/genericpath.py", "/posixpath.py",
+    # CPython 3.12 freezes these modules: their code objects carry these file names
+    "<frozen os>", "<frozen genericpath>", "<frozen posixpath>",
 )
 
 
@@ -59,6 +61,7 @@ class Sched:
         self.tracked = {}
         self.want_trace = bool(schedule.get("trace"))
         self.trace = [[] for _ in range(n)]
+        self.fs_steps = [[] for _ in range(n)]  # trace mode: steps (tracked lines) of a participant that issue a file-system call
 
     # -- called by participant threads
     def wait_turn(self, i):
@@ -145,6 +148,37 @@ class Sched:
                             continue
                 break
         return None
+
+
+_FS_FUNCS = ("stat", "lstat", "mkdir", "open", "rename", "replace", "unlink", "remove", "rmdir", "scandir", "listdir",
+             "utime", "access", "fstat", "truncate", "link", "symlink", "readlink", "chmod")
+
+
+def _record_fs_steps(sched):
+    """Dry (trace) runs only: wrap the `os`-level file-system entry points (and `open`) so that the index of the tracked
+    line that is executing when a participant issues a file-system call is recorded.  Pre-empting a participant at exactly
+    these steps enumerates its interleavings at file-system-call granularity (between two calls every pre-emption point is
+    equivalent).  The wrappers live in this (untracked) file: they add no step, so the indices are valid for the
+    scheduled runs, which do not install them."""
+    import builtins, functools, io
+
+    def wrap(f):
+        @functools.wraps(f)
+        def w(*a, **k):
+            i = sched.by_ident.get(threading.get_ident())
+            if i is not None and not sched.done[i]:
+                st = sched.steps[i]
+                if not sched.fs_steps[i] or sched.fs_steps[i][-1] != st:
+                    sched.fs_steps[i].append(st)
+            return f(*a, **k)
+        return w
+
+    for name in _FS_FUNCS:
+        f = getattr(os, name, None)
+        if f is not None:
+            setattr(os, name, wrap(f))
+    builtins.open = wrap(builtins.open)
+    io.open = builtins.open
 
 
 def _load_func(moddir):
@@ -239,6 +273,8 @@ def main(spec):
                 pass
 
     sys.addaudithook(audit)
+    if sched.want_trace:
+        _record_fs_steps(sched)
     mon = sys.monitoring
     tool = mon.DEBUGGER_ID
     mon.use_tool_id(tool, "c11-detsched")
@@ -257,7 +293,8 @@ def main(spec):
     mon.set_events(tool, 0)
     hung = [t.name for t in threads if t.is_alive()]
     print(json.dumps(dict(results=results, steps=sched.steps, switches=sched.switches, hung=hung,
-                          trace=sched.trace if sched.want_trace else None)))
+                          trace=sched.trace if sched.want_trace else None,
+                          fs_steps=sched.fs_steps if sched.want_trace else None)))
     sys.stdout.flush()
     if hung:
         os._exit(4)
